@@ -245,7 +245,7 @@ Proof. intros H. apply in_app_iff in H as [H|[H|[]]]; auto. Qed.
 
 Lemma shstep_inv s l : shinv s -> shinv (fst (shstep s l)).
 Proof.
-  intros (K1 & K2 & K3 & K4). destruct l as [k|d]; cbn [shstep].
+  intros (K1 & K2 & K3 & K4). destruct l as [k|d|n0 c0]; cbn [shstep]; [| |cbn [fst]; unfold shinv; auto].
   - destruct (Z.eqb_spec k 0) as [E|E]; cbn [fst].
     + (* falsy key: pass through *)
       unfold shinv; cbn [cache refs nsink nref]. split; [exact K1|]. split; [exact K2|]. split.
@@ -339,7 +339,7 @@ Qed.
 Lemma shstep_keeps s l r :
   In r (refs s) -> l <> SDrop (r_id r) -> In r (refs (fst (shstep s l))).
 Proof.
-  intros Hin Hl. destruct l as [k|d]; cbn [shstep].
+  intros Hin Hl. destruct l as [k|d|n0 c0]; cbn [shstep]; [| |exact Hin].
   - destruct (Z.eqb k 0); [|destruct (lookup k (cache s))]; cbn [fst refs]; apply in_app_iff; auto.
   - cbn [fst refs]. apply filter_In. split; [exact Hin|].
     destruct (Nat.eqb_spec (r_id r) d) as [E|E]; [subst; contradiction | reflexivity].
